@@ -432,11 +432,21 @@ func (s *controlledSelector) HandleSuccessResponse(
 	pair.state = CandidatePairStateSucceeded
 	s.log.Tracef("Found valid candidate pair: %s", pair)
 	if pair.nominateOnBindingSuccess {
-		if selectedPair := s.agent.getSelectedPair(); selectedPair == nil ||
+		selectedPair := s.agent.getSelectedPair()
+		switch value := pair.deferredNominationValue; {
+		case value != nil && (s.lastNomination == nil || *value < *s.lastNomination):
+			// A nomination with a greater value has been accepted since this one was deferred.
+			s.log.Tracef("Ignore deferred nomination %d for pair %s, superseded", *value, pair)
+		case value != nil:
+			// Renomination: the latest accepted nomination wins regardless of priority.
+			if selectedPair != pair {
+				s.agent.setSelectedPair(pair)
+			}
+		case selectedPair == nil ||
 			(selectedPair != pair &&
-				(!s.agent.needsToCheckPriorityOnNominated() || selectedPair.priority() <= pair.priority())) {
+				(!s.agent.needsToCheckPriorityOnNominated() || selectedPair.priority() <= pair.priority())):
 			s.agent.setSelectedPair(pair)
-		} else if selectedPair != pair {
+		case selectedPair != pair:
 			s.log.Tracef("Ignore nominate new pair %s, already nominated pair %s", pair, selectedPair)
 		}
 	}
@@ -499,6 +509,7 @@ func (s *controlledSelector) HandleBindingRequest(message *stun.Message, local, 
 			// candidate pair state to Failed, and set the checklist state to
 			// Failed.
 			pair.nominateOnBindingSuccess = true
+			pair.deferredNominationValue = nominationValue
 		}
 	}
 
